@@ -111,6 +111,13 @@ func (m *Model) justification1(l Lit) string {
 			return "health failure threshold reached"
 		}
 	}
+	// J6: the context the goroutine runs under is done (the term or the election has ended, or
+	// the caller cancelled the context it gave to Start): not an event of fault-free operation
+	if sel, k, ok := selectCaseOf(l); ok && k < len(sel.States) {
+		if x := m.Sym.Of(sel.States[k].Chan); x.Op == "invoke" && strings.HasSuffix(x.Name, "Context.Done") && len(x.Args) == 1 && x.Args[0].Op == "param" {
+			return "the goroutine's context is done"
+		}
+	}
 	// J5: a watch event with a revision greater than our own latest one
 	if l.Truth && s.Op == "bin" && s.Name == "<" && strings.Contains(s.Args[0].String(), "(*sync/atomic.Uint64).Load(&"+m.path(m.Revision)+")") && strings.Contains(s.Args[1].String(), "Entry.Revision(") {
 		return "observed record is newer than own latest write"
